@@ -7,6 +7,22 @@ import Fcgi.Props.C07Unread2
   before the proof existed) holds: for `n > 0` it is `unread_prefix_e2e`; for `n = 0` (which that
   statement also covers) `poll_input(Some(0))` returns at once and the run is that of a handler that
   reads nothing (`run_read0`), split `s₁ = []`.
+* `unread_filter_e2e_partial`, `unread_filter_chain_e2e_partial`: a Filter left wholly unread
+  (`[.ret st]`, KEEP_CONN) whose Data stream carries NO content (noise and the terminator only — the
+  empty Data stream `drecs = [terminator]` in particular, `Example`): `close()`'s `writeable()` passes
+  over all of Stdin and the Data noise in buffering mode, the request becomes writeable at the
+  END-OF-STREAM exit of `poll_input(None)`, the epilogue carries the empty Stdout and Stderr records,
+  the Data terminator is left to the next `parse_request`; and the chain step.
+* Missing for `unread_filter_e2e_full` (Data WITH content), which stays open — neither proved nor
+  refuted; the replays `c07-filter-unread-*` agree with it: then `poll_input(None)` returns with Data
+  bytes buffered, possibly in the middle of a record, and `record_boundary()` has to run the parser
+  in ignore mode over own-id DATA records.  The bisimulation of `Proofs/E2EIgnore` ("ignoring =
+  a Filter's parser in stream 8") is wrong there — the stream-8 parser delivers those records —;
+  the right view is "a Responder's parser in stream 5" (`cmpInputStreams 1 8 (some 5) = lt`, and a
+  well-formed Data stream has no own-id Stdin records), so `E2EIgnore`/`E2EPrefixRef`/`E2EPrefixStr`
+  have to be redone for that view, plus a lemma that at the switch the replies still owed are the
+  same under `⟨id,3,8⟩` and `⟨id,1,5⟩`.  `writeable()` itself (`fu_wpoll`, on `pollInput_sim_none`) and
+  the tail of `close` (`uclose_out_m`: entered with the mutex still held) carry over unchanged.
 -/
 namespace Fcgi.C07U
 open Fcgi Fcgi.Req Fcgi.Str Fcgi.Async Fcgi.Run Fcgi.Spec Fcgi.E2E Fcgi.C07E
@@ -52,5 +68,335 @@ theorem unread_prefix_e2e_full_holds : unread_prefix_e2e_full := by
       refine ⟨c', s1, s2, owedStream p.id 5 mc s1, [], hrun, ho.split, List.append_nil _, ?_, ho.one_handler.1, hinp⟩
       rw [ho.log, idleOwed_eq_owedStream5 p.id mc hnb2]
       simp only [List.append_assoc, List.append_nil]
+
+/-! ## A Filter left wholly unread, Data stream without content -/
+
+/-- the configuration of a Filter request whose handler is `[.ret st]`; `body`, `pad`, `res` /
+`body2`, `pad2`, `res2`: the records of Stdin / Data before the terminator, the terminator's padding
+and reserved byte -/
+def cfgFU (p : Preamble) (recs : List Rec) (content : Bytes) (body : List Rec) (pad : Bytes) (res : UInt8)
+    (body2 : List Rec) (pad2 : Bytes) (res2 : UInt8)
+    (b mc : Nat) (st : ExitStatus) (L0 : Bytes) (h : Nat) (more : List (List HOp × Bool)) : E2E.Cfg :=
+  ⟨p, recs, content, body, pad, res, [], body2, pad2, res2, b, mc, [], st, L0, h, more,
+    serAll body ++ (({ rtype := 5, id := p.id, content := [], pad := pad, reserved := res } : Rec).ser ++
+      (serAll body2 ++ ({ rtype := 8, id := p.id, content := [], pad := pad2, reserved := res2 } : Rec).ser)),
+    serAll body2 ++ ({ rtype := 8, id := p.id, content := [], pad := pad2, reserved := res2 } : Rec).ser,
+    [], [], [], [.ret st]⟩
+
+/-- what the run of a Filter request left unread ends in; `tm` = the Data stream's terminator -/
+structure FilterUnreadOutcome (p : Preamble) (recs srecs d₁ : List Rec) (tm : Rec)
+    (b mc : Nat) (st : ExitStatus) (more : List (List HOp × Bool)) (t : Transport) (c' : Conn) (fin : String) :
+    Prop where
+  /-- exactly one handler start, for the request sent -/
+  one_handler : hsCount c'.env.tr.events = 1 ∧ startEvent p.request ∈ c'.env.tr.events
+  /-- the log: preamble replies, the replies owed for the noise in Stdin and in the Data stream, and
+  the epilogue of a WRITEABLE request: `[Stdout∅][Stderr∅][EndRequest(id, st)]` -/
+  log : c'.env.tr.wlog = t.wlog ++ (owedPreamble p mc recs ++
+    (owedStream p.id 5 mc srecs ++ owedStream p.id 8 mc d₁) ++ epilogue p.id st)
+  scripts : c'.scripts = more
+  /-- the next `parse_request` was handed exactly the Data terminator, has swallowed it (no reply) and
+  waits for the next request — or the peer has closed and the task returned -/
+  final : (t.endMode = .eof ∧ fin = "RET" ∧ c'.phase = .finished) ∨
+          (t.endMode = .pend ∧ fin = "STALL" ∧
+            c'.phase = .parseReq (track (alignedBufsize b) mc tm.ser) .reading ∧
+            c'.env.tr.input = [] ∧ c'.env.mutex = none ∧ c'.stop = false ∧ Ben c'.env.tr)
+
+/-- **C07/C05 end to end: a Filter left wholly unread, its Data stream without content**
+(`_partial`: `unread_filter_e2e_full` restricted to `content2 = []`, i.e. `drecs` = noise records and
+the terminator — in particular `drecs = [terminator]`).
+
+A Filter request with KEEP_CONN: well-formed preamble, a Stdin stream with any content, segmentation
+and noise, a Data stream with any noise but no content, all of it in the transport; ANY transport
+chunking without error answers; the handler returns `st` without reading.  Then `close()`:
+`writeable()` does `set_stream(Data)` and `poll_input(None)`, which passes over ALL of Stdin and the
+noise of the Data stream (`d₁`; their replies are written) and returns at its END-OF-STREAM exit in
+front of the Data terminator `tm` — where the request becomes writeable —; `record_boundary()` returns
+at once; the epilogue therefore carries the empty Stdout and Stderr records; the next
+`parse_request` is handed exactly `tm.ser`, swallows it without reply and parks (or the task
+returns at end-of-file).  Missing for `content2 ≠ []`: see the module docstring. -/
+theorem unread_filter_e2e_partial {p : Preamble} {recs : List Rec} {content : Bytes} {srecs drecs : List Rec}
+    {b mc : Nat} {st : ExitStatus} {more : List (List HOp × Bool)} {t : Transport} {fuel : Nat}
+    (hwf : WellFormedPreamble p recs) (hrole : p.role = 3) (hk : p.flags.toNat % 2 = 1)
+    (hpairs : ∀ q ∈ p.pairs, (NV.enc q).length ≤ alignedBufsize b)
+    (hnoise : NoiseFits (alignedBufsize b) recs)
+    (hs : StreamRecs p.id 5 content srecs) (hsn : NoiseFits (alignedBufsize b) srecs)
+    (hd : StreamRecs p.id 8 [] drecs) (hdn : NoiseFits (alignedBufsize b) drecs)
+    (hin : t.input = serAll recs ++ (serAll srecs ++ serAll drecs)) (hben : Ben t) (hev : hsCount t.events = 0)
+    (hfuel : t.rd.length + t.wr.length + 1 ≤ fuel)
+    (hsize : 6 * t.input.length + 26 ≤ 100000) :
+    ∃ c' fin d₁ tm, runTask fuel (connS b mc t (([.ret st], true) :: more)) 0 none = (c', fin) ∧
+      drecs = d₁ ++ [tm] ∧ tm.rtype = 8 ∧ tm.id = p.id ∧ tm.content = [] ∧
+      FilterUnreadOutcome p recs srecs d₁ tm b mc st more t c' fin := by
+  have hid := (pid_of_wf hwf).2
+  obtain ⟨body, pad, res, hpad, hbody, hsrecs⟩ := StreamRecs.split hs
+  obtain ⟨body2, pad2, res2, hpad2, hbody2, hdrecs⟩ := StreamRecs.split hd
+  subst hsrecs hdrecs
+  have ok : FUOK (cfgFU p recs content body pad res body2 pad2 res2 b mc st t.wlog 0 more) :=
+    ⟨hwf, hrole, hpairs, hnoise, streamRecs_stdin hid hs, fun r hr hg => hsn r (List.mem_append_left _ hr) hg, rfl,
+      hbody2, fun r hr hg => hdn r (List.mem_append_left _ hr) hg, hpad2, rfl, rfl, rfl⟩
+  have htw : ({ rtype := 8, id := p.id, content := [], pad := pad2, reserved := res2 } : Rec).WF :=
+    ⟨hid, by simp, hpad2⟩
+  have hidle : ∀ e ∈ [({ rtype := 8, id := p.id, content := [], pad := pad2, reserved := res2 } : Rec)], IdleNoise e := by
+    intro e he
+    rw [List.mem_singleton.1 he]
+    exact ⟨htw, fun hx => absurd hx (by show ¬ ((8 : UInt8).toNat = RT.beginRequest); decide)⟩
+  have hfit1 : NoiseFits (alignedBufsize b) [({ rtype := 8, id := p.id, content := [], pad := pad2, reserved := res2 } : Rec)] := by
+    intro e he hg
+    rw [List.mem_singleton.1 he] at hg
+    exact absurd hg.1 (by simp [RT.getValues])
+  obtain ⟨hns, hNF⟩ := idle_front dummy_wf b mc (fun q hq => by cases hq) (dummy_fits _) hidle hfit1 []
+  rw [C02.serAll_single] at hns hNF
+  have hst : FStage (cfgFU p recs content body pad res body2 pad2 res2 b mc st t.wlog 0 more)
+      (connS b mc t (([.ret st], true) :: more)) :=
+    .start (raw := []) rfl (by
+      show [] ++ t.input = _
+      rw [hin, C02.serAll_append, C02.serAll_single, C02.serAll_append, C02.serAll_single, List.append_assoc (serAll body)]
+      rfl)
+      (Nat.zero_le _) rfl hben rfl rfl rfl hev
+  obtain ⟨c', fin, hrun, _, _, hkp, hem, _, _, _, hend⟩ := run_filter0 ok hk (Z := serAll dummyRecs ++ []) hns hNF
+    t.endMode [] _ 0 fuel hst rfl (fun s hs => by cases hs) rfl (by show ans t + 1 ≤ fuel; unfold ans; omega) hsize
+  have hLU : (gF (cfgFU p recs content body pad res body2 pad2 res2 b mc st t.wlog 0 more)).LU =
+      t.wlog ++ (owedPreamble p mc recs ++
+        (owedStream p.id 5 mc (body ++ [{ rtype := UInt8.ofNat 5, id := p.id, content := [], pad := pad, reserved := res }]) ++
+          owedStream p.id 8 mc body2) ++ epilogue p.id st) := by
+    rw [gF, gC_LU]
+    show (t.wlog ++ owedPreamble p mc recs) ++
+      owedI p.id mc ((body ++ [{ rtype := 5, id := p.id, content := [], pad := pad, reserved := res }]) ++ body2) ++
+      makeRequestEpilogue p.id st [RT.stdout, RT.stderr] = _
+    rw [epilogue_eq, ← owedI_eq_owedStream, ← owedI_eq_owedStream8]
+    simp only [owedI, List.flatMap_append, List.append_assoc]
+    rfl
+  have hout : ∀ F, F ++ (serAll dummyRecs ++ []) =
+      ({ rtype := 8, id := p.id, content := [], pad := pad2, reserved := res2 } : Rec).ser ++ (serAll dummyRecs ++ []) →
+      (gF (cfgFU p recs content body pad res body2 pad2 res2 b mc st t.wlog 0 more)).LU ++ (run .header F mc).out =
+      t.wlog ++ (owedPreamble p mc recs ++
+        (owedStream p.id 5 mc (body ++ [{ rtype := UInt8.ofNat 5, id := p.id, content := [], pad := pad, reserved := res }]) ++
+          owedStream p.id 8 mc body2) ++ epilogue p.id st) := by
+    intro F hF
+    have hro := (run_idle_out mc _ hidle).1
+    rw [C02.serAll_single] at hro
+    have hz : idleOwed mc [({ rtype := 8, id := p.id, content := [], pad := pad2, reserved := res2 } : Rec)] = [] := by
+      simp only [idleOwed, List.flatMap_cons, List.flatMap_nil, List.append_nil]
+      exact C04.owed_other none mc _ (by show RT.valid (8 : UInt8).toNat = true; decide)
+        (by show (8 : UInt8).toNat ≠ RT.beginRequest; decide)
+        (fun hx => absurd hx.1 (by show ¬ ((8 : UInt8).toNat = RT.getValues); decide))
+    rw [List.append_cancel_right hF, hro, hz, List.append_nil, hLU]
+  refine ⟨c', fin, body2, _, hrun, rfl, rfl, rfl, rfl, ⟨hkp.hs, hkp.ev _ List.mem_cons_self⟩, ?_, hkp.sc, ?_⟩
+  · rcases hend with ⟨_, hp⟩ | ⟨_, hf⟩
+    · obtain ⟨F, hF, _, _, hlg⟩ := hp.pst
+      have hlg' : c'.env.tr.wlog = (gF (cfgFU p recs content body pad res body2 pad2 res2 b mc st t.wlog 0 more)).LU ++
+          (run .header F mc).out := hlg
+      rw [hlg']; exact hout F hF
+    · obtain ⟨F, hF, hlg⟩ := hf.log
+      have hlg' : c'.env.tr.wlog = (gF (cfgFU p recs content body pad res body2 pad2 res2 b mc st t.wlog 0 more)).LU ++
+          (run .header F mc).out := hlg
+      rw [hlg']; exact hout F hF
+  · rcases hend with ⟨rfl, hp⟩ | ⟨rfl, hf⟩
+    · obtain ⟨F, hF, hps, hph, _⟩ := hp.pst
+      have hFe : F = ({ rtype := 8, id := p.id, content := [], pad := pad2, reserved := res2 } : Rec).ser :=
+        List.append_cancel_right hF
+      subst hFe
+      exact Or.inr ⟨hem.symm.trans hp.em, rfl, hph, hp.inp, hkp.mx, hps.stop, hps.ben⟩
+    · exact Or.inl ⟨hem.symm.trans hf.em, rfl, hf.ph⟩
+
+/-- **The chain step for the Filter left unread** (`_partial` as above: Data stream without content).
+A closed-loop client sends the Filter request of `unread_filter_e2e_partial` and then the keep-alive
+requests `x :: xs` (`UReq.OK`: read to the end, or a Responder left wholly unread): `1 + k` handler
+starts; the log is the Filter's segment followed by the `k` segments `UReq.Seg`, each exactly what a
+connection serving that request alone writes; the task is parked behind what the last request left. -/
+theorem unread_filter_chain_e2e_partial {p : Preamble} {recs : List Rec} {content : Bytes} {srecs drecs : List Rec}
+    {b mc : Nat} {st : ExitStatus} (x : UReq) (xs : List UReq) {t : Transport} {fuel : Nat}
+    (hwf : WellFormedPreamble p recs) (hrole : p.role = 3) (hk : p.flags.toNat % 2 = 1)
+    (hpairs : ∀ q ∈ p.pairs, (NV.enc q).length ≤ alignedBufsize b)
+    (hnoise : NoiseFits (alignedBufsize b) recs)
+    (hs : StreamRecs p.id 5 content srecs) (hsn : NoiseFits (alignedBufsize b) srecs)
+    (hd : StreamRecs p.id 8 [] drecs) (hdn : NoiseFits (alignedBufsize b) drecs)
+    (hok : ∀ y ∈ x :: xs, y.OK b)
+    (hin : t.input = serAll recs ++ (serAll srecs ++ serAll drecs)) (hben : Ben t) (hem : t.endMode = .pend)
+    (hev : hsCount t.events = 0) (hfuel : t.rd.length + t.wr.length + 1 ≤ fuel)
+    (hsize : 6 * t.input.length + 26 ≤ 100000) :
+    ∃ c' d₁ tm A,
+      closedLoop fuel ((x :: xs).map UReq.wire)
+        (connS b mc t (([.ret st], true) :: (x :: xs).map UReq.handler)) 0 = (c', "STALL") ∧
+      drecs = d₁ ++ [tm] ∧
+      SegsAll mc (x :: xs) A ∧
+      c'.env.tr.wlog = t.wlog ++ (owedPreamble p mc recs ++
+        (owedStream p.id 5 mc srecs ++ owedStream p.id 8 mc d₁) ++ epilogue p.id st) ++ A ∧
+      hsCount c'.env.tr.events = 1 + (x :: xs).length ∧
+      startEvent p.request ∈ c'.env.tr.events ∧
+      (∀ y ∈ x :: xs, startEvent y.p.request ∈ c'.env.tr.events) ∧ c'.scripts = [] ∧
+      c'.env.tr.input = [] ∧
+      c'.phase = .parseReq (track (alignedBufsize b) mc (serAll ((x :: xs).getLast (by simp)).left)) .reading := by
+  have hid := (pid_of_wf hwf).2
+  obtain ⟨body, pad, res, hpad, hbody, hsrecs⟩ := StreamRecs.split hs
+  obtain ⟨body2, pad2, res2, hpad2, hbody2, hdrecs⟩ := StreamRecs.split hd
+  subst hsrecs hdrecs
+  have ok : FUOK (cfgFU p recs content body pad res body2 pad2 res2 b mc st t.wlog 0
+      (((x :: xs).map (UReq.spec mc)).map RSpec.handler)) :=
+    ⟨hwf, hrole, hpairs, hnoise, streamRecs_stdin hid hs, fun r hr hg => hsn r (List.mem_append_left _ hr) hg, rfl,
+      hbody2, fun r hr hg => hdn r (List.mem_append_left _ hr) hg, hpad2, rfl, rfl, rfl⟩
+  have htw : ({ rtype := 8, id := p.id, content := [], pad := pad2, reserved := res2 } : Rec).WF :=
+    ⟨hid, by simp, hpad2⟩
+  have hT : IdleNoise ({ rtype := 8, id := p.id, content := [], pad := pad2, reserved := res2 } : Rec) :=
+    ⟨htw, fun hx => absurd hx (by show ¬ ((8 : UInt8).toNat = RT.beginRequest); decide)⟩
+  have hlo : LeftOK (alignedBufsize b) [({ rtype := 8, id := p.id, content := [], pad := pad2, reserved := res2 } : Rec)] :=
+    ⟨fun e he => by rw [List.mem_singleton.1 he]; exact hT, fun e he hg => by
+      rw [List.mem_singleton.1 he] at hg
+      exact absurd hg.1 (by simp [RT.getValues])⟩
+  have hW : (cfgFU p recs content body pad res body2 pad2 res2 b mc st t.wlog 0
+      (((x :: xs).map (UReq.spec mc)).map RSpec.handler)).W = t.input := by
+    rw [hin, C02.serAll_append, C02.serAll_single, C02.serAll_append, C02.serAll_single, List.append_assoc (serAll body)]
+    rfl
+  have hstart : StartAt (alignedBufsize b) mc [] t.wlog
+      (([.ret st], true) :: ((x :: xs).map (UReq.spec mc)).map RSpec.handler) 0 [] (ans t)
+      (cfgFU p recs content body pad res body2 pad2 res2 b mc st t.wlog 0
+        (((x :: xs).map (UReq.spec mc)).map RSpec.handler)).W
+      (connS b mc t (([.ret st], true) :: ((x :: xs).map (UReq.spec mc)).map RSpec.handler)) :=
+    Or.inr ⟨rfl, rfl, by show t.input = _; rw [hW], rfl, hben, rfl, rfl, rfl, hev,
+      (fun _ hs => nomatch hs), rfl, hem, Nat.le_refl _⟩
+  have hleft0 : LeftOK (alignedBufsize b) [] := ⟨(fun _ he => nomatch he), (fun _ hr => nomatch hr)⟩
+  obtain ⟨c1, hrun1, hw1⟩ := serve_filter0_core ok hk (left := []) hleft0 (Z := x.wire) hT
+    (goodNext_of_ok (hok x List.mem_cons_self) hlo) 0 fuel (by simp [idleOwed]; rfl) hstart (by unfold ans; omega)
+    (by rw [hW]; exact hsize)
+  have hz : idleOwed mc [({ rtype := 8, id := p.id, content := [], pad := pad2, reserved := res2 } : Rec)] = [] := by
+    simp only [idleOwed, List.flatMap_cons, List.flatMap_nil, List.append_nil]
+    exact C04.owed_other none mc _ (by show RT.valid (8 : UInt8).toNat = true; decide)
+      (by show (8 : UInt8).toNat ≠ RT.beginRequest; decide)
+      (fun hx => absurd hx.1 (by show ¬ ((8 : UInt8).toNat = RT.getValues); decide))
+  have hLU : (gF ((cfgFU p recs content body pad res body2 pad2 res2 b mc st t.wlog 0
+      (((x :: xs).map (UReq.spec mc)).map RSpec.handler)).front [])).LU ++
+      idleOwed mc [({ rtype := 8, id := p.id, content := [], pad := pad2, reserved := res2 } : Rec)] =
+      t.wlog ++ (owedPreamble p mc recs ++
+        (owedStream p.id 5 mc (body ++ [{ rtype := UInt8.ofNat 5, id := p.id, content := [], pad := pad, reserved := res }]) ++
+          owedStream p.id 8 mc body2) ++ epilogue p.id st) := by
+    rw [hz, List.append_nil, gF, gC_LU]
+    show (t.wlog ++ owedPreamble p mc ([] ++ recs)) ++
+      owedI p.id mc ((body ++ [{ rtype := 5, id := p.id, content := [], pad := pad, reserved := res }]) ++ body2) ++
+      makeRequestEpilogue p.id st [RT.stdout, RT.stderr] = _
+    rw [epilogue_eq, ← owedI_eq_owedStream, ← owedI_eq_owedStream8]
+    simp only [owedI, List.flatMap_append, List.append_assoc, List.nil_append]
+    rfl
+  have hw1' : Waiting (alignedBufsize b) mc
+      [({ rtype := 8, id := p.id, content := [], pad := pad2, reserved := res2 } : Rec)]
+      (t.wlog ++ (owedPreamble p mc recs ++
+        (owedStream p.id 5 mc (body ++ [{ rtype := UInt8.ofNat 5, id := p.id, content := [], pad := pad, reserved := res }]) ++
+          owedStream p.id 8 mc body2) ++ epilogue p.id st))
+      (((x :: xs).map (UReq.spec mc)).map RSpec.handler) 1 [hsEvent p.request] (ans t) c1 := by
+    rw [← hLU]; exact hw1
+  obtain ⟨c', A, hrun, hseg, hw⟩ := chain_serves (alignedBufsize b) mc (serAll dummyRecs ++ [])
+    (xs.map (UReq.spec mc)) (UReq.spec mc x) _ _ 1 [hsEvent p.request] (ans t) (feed c1 x.wire) 1000 fuel
+    (hall_of_ok x xs hok) hlo (Or.inl ⟨c1, hw1', rfl⟩) (by unfold ans; omega)
+  have hrun' : closedLoop fuel ((x :: xs).map UReq.wire)
+      (connS b mc t (([.ret st], true) :: (x :: xs).map UReq.handler)) 0 = (c', "STALL") := by
+    have e : (x :: xs).map UReq.handler = ((x :: xs).map (UReq.spec mc)).map RSpec.handler := by
+      rw [List.map_map]; rfl
+    rw [e]
+    show closedLoop fuel (x.wire :: xs.map UReq.wire) _ 0 = _
+    rw [closedLoop, hrun1]
+    simp only [if_true]
+    rw [← hrun, List.map_map]; rfl
+  have hlast := lastLeft_specs mc x xs
+  refine ⟨c', body2, _, A, hrun', rfl, segAll_specs mc (x :: xs) A hseg, hw.log, ?_, ?_, ?_, hw.sc, hw.inp, ?_⟩
+  · have := hw.hs; simpa [Nat.add_comm] using this
+  · exact hw.ev _ (mem_evsAfter _ _ _ (Or.inl List.mem_cons_self))
+  · intro y hy
+    exact hw.ev _ (mem_evsAfter _ _ _ (Or.inr ⟨UReq.spec mc y, List.mem_map_of_mem hy, rfl⟩))
+  · rw [← hlast]; exact hw.ph
+
+/-! ## Non-vacuity -/
+namespace Example
+open Fcgi.C01.Example Fcgi.C07E.Example
+
+/-- Filter request 1 with KEEP_CONN, no parameters. -/
+def preFK : Preamble := { id := 1, role := 3, flags := 1, pairs := [] }
+def recsFK : List Rec :=
+  [ { rtype := 1, id := 1, content := [0, 3, 1, 0, 0, 0, 0, 0], pad := [] },
+    { rtype := 4, id := 1, content := [], pad := [] } ]
+
+theorem recsFK_wf : WellFormedPreamble preFK recsFK :=
+  .begin [] 0 [0, 0, 0, 0, 0] rfl (by decide) (by decide) (by decide) (fun q hq => by cases hq) (.done [] 0 (by decide))
+
+theorem recsFK_fits (M : Nat) : NoiseFits M recsFK := no_getValues_fits (by decide)
+
+/-- an EMPTY Data stream: the terminator only -/
+def dE : List Rec := [ { rtype := 8, id := 1, content := [], pad := [0] } ]
+
+theorem dE_ok : StreamRecs 1 8 [] dE := .term [0] 0 (by decide)
+
+theorem dE_fits (M : Nat) : NoiseFits M dE := no_getValues_fits (by decide)
+
+/-- the Filter request with Stdin `"AB"` (`fS`) and the empty Data stream -/
+def fkT : Transport :=
+  { input := serAll recsFK ++ (serAll fS ++ serAll dE), endMode := .pend,
+    rd := [.n 20, .pending, .n 30, .n 1, .pending, .all], wr := [.n 5, .pending, .all, .n 1], fl := [] }
+
+theorem fS_fits (M : Nat) : NoiseFits M fS := no_getValues_fits (by decide)
+
+/-- **The empty-Data case, explicitly**: `unread_filter_e2e_partial` applied to a Filter whose Data
+stream is just its terminator and whose handler returns `Complete(3)` without reading.  `writeable()`
+passes over Stdin and becomes writeable at the end-of-stream exit of `poll_input(None)`; the log is
+exactly `[Stdout∅][Stderr∅][EndRequest(1, Complete(3))]` — the epilogue of a writeable request —; the
+Data terminator `01 08 00 01 00 00 01 00 00` is left to, and swallowed by, the next `parse_request`.
+Replayed (`# case c07-filter-unread-emptydata`): compiled model driver and real crate print the same
+line. -/
+example : ∃ c', runTask 20 (connS 64 10 fkT [([.ret (.complete 3)], true)]) 0 none = (c', "STALL") ∧
+    c'.env.tr.wlog =
+      [1, 6, 0, 1, 0, 0, 0, 0, 1, 7, 0, 1, 0, 0, 0, 0, 1, 3, 0, 1, 0, 8, 0, 0, 0, 0, 0, 3, 0, 0, 0, 0] ∧
+    c'.phase = .parseReq (track 64 10 [1, 8, 0, 1, 0, 0, 1, 0, 0]) .reading ∧
+    hsCount c'.env.tr.events = 1 ∧ c'.env.tr.input = [] := by
+  obtain ⟨c', fin, d1, tm, hrun, hsp, _, _, _, ho⟩ := unread_filter_e2e_partial (p := preFK) (recs := recsFK)
+    (content := [65, 66]) (srecs := fS) (drecs := dE) (b := 64) (mc := 10) (st := .complete 3) (more := [])
+    (t := fkT) (fuel := 20) recsFK_wf rfl (by decide) (fun q hq => by cases hq) (recsFK_fits _) fS_ok (fS_fits _)
+    dE_ok (dE_fits _) rfl ⟨by decide, by decide, rfl, by decide⟩ rfl (by decide) (by decide +kernel)
+  have hd1 : d1 = [] ∧ tm = { rtype := 8, id := 1, content := [], pad := [0] } := by
+    cases d1 with
+    | nil => simp only [dE, List.nil_append, List.cons.injEq, and_true] at hsp; exact ⟨rfl, hsp.symm⟩
+    | cons a d1' =>
+      exfalso
+      have := congrArg List.length hsp
+      simp [dE] at this
+  obtain ⟨rfl, rfl⟩ := hd1
+  rcases ho.final with ⟨h, _⟩ | ⟨_, hfin, hph, hin, _⟩
+  · exact absurd h (by decide)
+  · subst hfin
+    refine ⟨c', hrun, ?_, ?_, ho.one_handler.1, hin⟩
+    · rw [ho.log]
+      decide +kernel
+    · rw [hph]
+      rfl
+
+/-- `unread_filter_chain_e2e_partial` applied: the Filter left unread (empty Data stream), then the
+unread Responder request `u1` and the Authorizer request `q2` of `Props/C07Unread`: three handler
+starts, the Filter's segment is its epilogue, the two later segments are those of the requests alone. -/
+example : ∃ c' A, closedLoop 20 [u1.wire, q2.wire]
+      (connS 64 10 fkT [([.ret (.complete 3)], true), u1.handler, q2.handler]) 0 = (c', "STALL") ∧
+    SegsAll 10 [u1, .full q2] A ∧
+    c'.env.tr.wlog =
+      [1, 6, 0, 1, 0, 0, 0, 0, 1, 7, 0, 1, 0, 0, 0, 0, 1, 3, 0, 1, 0, 8, 0, 0, 0, 0, 0, 3, 0, 0, 0, 0] ++ A ∧
+    hsCount c'.env.tr.events = 3 ∧ c'.scripts = [] ∧ c'.env.tr.input = [] := by
+  obtain ⟨c', d1, tm, A, hrun, hsp, hseg, hlog, hhs, _, _, hsc, hin, _⟩ :=
+    unread_filter_chain_e2e_partial (p := preFK) (recs := recsFK)
+    (content := [65, 66]) (srecs := fS) (drecs := dE) (b := 64) (mc := 10) (st := .complete 3) u1 [.full q2]
+    (t := fkT) (fuel := 20) recsFK_wf rfl (by decide) (fun q hq => by cases hq) (recsFK_fits _) fS_ok (fS_fits _)
+    dE_ok (dE_fits _)
+    (fun y hy => by
+      simp only [List.mem_cons, List.not_mem_nil, or_false] at hy
+      rcases hy with rfl | rfl
+      · exact u1_ok
+      · exact ⟨q2_ok, by decide⟩)
+    rfl ⟨by decide, by decide, rfl, by decide⟩ rfl rfl (by decide) (by decide +kernel)
+  have hd1 : d1 = [] := by
+    cases d1 with
+    | nil => rfl
+    | cons a d1' =>
+      exfalso
+      have := congrArg List.length hsp
+      simp [dE] at this
+  subst hd1
+  refine ⟨c', A, hrun, hseg, ?_, hhs, hsc, hin⟩
+  rw [hlog]
+  congr 1
+
+end Example
 
 end Fcgi.C07U
